@@ -123,6 +123,14 @@ class HSym:
         self.store.patched = getattr(self.store, 'patched', set())
         self.store.patched.add(f'{module}.{name}')
 
+    def bare(self, cls):
+        """an instance of an nn.Module subclass whose own constructor is NOT run (only nn.Module.__init__): used to call a single
+        method of a class whose constructor is out of reach; the attributes the method reads are set by the harness"""
+        o = I.Obj(cls)
+        c, mem = self.it.find_member(self.it.libs['torch'].nn.Module, '__init__')
+        mem['fn'](self.it, o)
+        return o
+
     def set_requires_grad(self, t, v):
         t.requires_grad = v if is_sym(v) else bool(v)
 
@@ -330,6 +338,16 @@ class HSym:
             nodes.append(prev)
         gm.graph.output(prev)
         return gm, nodes
+
+    def fx_function_node(self, fn, n_inputs, extra_args=(), kwargs=None):
+        """a torch.fx call_function node applying `fn` to a tuple of n_inputs placeholder nodes (+ extra positional / keyword args)"""
+        from .torchlib import FxGraph, FxNode
+        g = FxGraph()
+        ins = tuple(g.placeholder('x%d' % i) for i in range(n_inputs))
+        n = FxNode(g, 'call_function', fn, (ins,) + tuple(extra_args))
+        n.kwargs = dict(kwargs or {})
+        g.nodes.append(n)
+        return n
 
     def fx_run(self, gm, x):
         return gm.run(self.it, x)
